@@ -153,8 +153,8 @@ func (k *call) reference(pat ot.Pattern, sh ot.Shape) *obs {
 	o := &obs{}
 	k.refs[key] = o
 	row, e := k.row, k.e
-	uni.Seed(k.c, k.name, k.kind.Name)
-	rcv := k.t.New(e)
+	// operands and output first, then the seed: constructors used to build operands may themselves draw
+	// PRNGs, and the receiver must see the same PRNG stream in the reference and in the measured execution
 	in := k.kind.Make(e, k.gen())
 	if pat.Same != nil { // "op0==op1" is compared with two identical but distinct copies
 		in[pat.Same[1]] = k.kind.Make(e, k.gen())[pat.Same[0]]
@@ -174,6 +174,8 @@ func (k *call) reference(pat ot.Pattern, sh ot.Shape) *obs {
 			return o
 		}
 	}
+	uni.Seed(k.c, k.name, k.kind.Name)
+	rcv := k.t.New(e)
 	o.err, o.pnc = uni.Try(func() (err error) { o.res, err = row.Call(rcv, in, out); return })
 	if o.err == nil && o.pnc == nil {
 		o.parts = ot.Parts(o.res)
@@ -185,16 +187,6 @@ func (k *call) reference(pat ot.Pattern, sh ot.Shape) *obs {
 func (k *call) measure(pat ot.Pattern, sh ot.Shape, h history) *obs {
 	o := &obs{}
 	row, e, t := k.row, k.e, k.t
-	uni.Seed(k.c, k.name, k.kind.Name)
-	rcv := t.New(e)
-	for _, p := range h.calls {
-		runPrior(t, e, rcv, p)
-	}
-	if h.fill != 0 {
-		if _, n := ot.FillResidue(rcv, ot.FillMode(h.fill-1)); n > 0 {
-			k.c.Cover("residue-filled", t.Name)
-		}
-	}
 	in := k.kind.Make(e, k.gen())
 	if pat.Same != nil {
 		in[pat.Same[1]] = in[pat.Same[0]]
@@ -215,6 +207,16 @@ func (k *call) measure(pat ot.Pattern, sh ot.Shape, h history) *obs {
 				o.skip = "output shape does not exist for this operand kind"
 				return o
 			}
+		}
+	}
+	uni.Seed(k.c, k.name, k.kind.Name)
+	rcv := t.New(e)
+	for _, p := range h.calls {
+		runPrior(t, e, rcv, p)
+	}
+	if h.fill != 0 {
+		if _, n := ot.FillResidue(rcv, ot.FillMode(h.fill-1)); n > 0 {
+			k.c.Cover("residue-filled", t.Name)
 		}
 	}
 	// inputs that must stay intact: every argument that is not the designated output and not
